@@ -793,8 +793,10 @@ class PolarGrid2D(Grid2D):
         else:
             if len(args) == 2:
                 theta_max = args[1][-1]
-            else:
+            elif len(args) == 4:
                 theta_max = args[3]
+            else:
+                raise TypeError('Incorrect number of arguments for creation of 2D mesh structure.')
             if (theta_max > 2*np.pi):
                 warn("Recreate the mesh with an upper bound of 2*pi for \\theta or there will be unknown consequences!")
             dims, cell_size, cell_location, face_location, corners, edges\
@@ -1089,8 +1091,10 @@ class CylindricalGrid3D(Grid3D):
         else:
             if len(args) == 3:
                 theta_max = args[1][-1]
-            else:
+            elif len(args) == 6:
                 theta_max = args[4]
+            else:
+                raise TypeError('Incorrect number of arguments for creation of 3D mesh structure.')
             if theta_max > 2*np.pi:
                 warn("Recreate the mesh with an upper bound of 2*pi for theta or there will be unknown consequences!")
 
@@ -1213,7 +1217,8 @@ class SphericalGrid3D(Grid3D):
             elif len(args) == 6:
                 theta_max = args[4]
                 phi_max = args[5]
-            
+            else:
+                raise TypeError('Incorrect number of arguments for creation of 3D mesh structure.')
             if theta_max > np.pi:
                 warn("Recreate the mesh with an upper bound of pi for \\theta"\
                     " or there will be unknown consequences!")
